@@ -133,6 +133,12 @@ def curated():
     D.append(Def('builtin_small', [('Init', [
         Rule(plus(bi('ascii_digit')), 'tok'), Rule(cat(bi('ascii_alphabetic'), star(bi('ascii_alphanumeric'))), 'tok'),
         Rule(bi('ascii_whitespace'), 'skip'), Rule(bi('ascii_punctuation'), 'tok')])], tags=['C13', 'C02', 'curated']))
+    # classes with more than 9 ranges are compiled to binary-search tables (both in rules and in right contexts)
+    big = cs(('a', 'b'), ('d', 'e'), ('g', 'h'), ('j', 'k'), ('m', 'n'), ('p', 'q'), ('s', 't'), ('v', 'w'), ('y', 'z'), ('0', '1'), ('3', '4'))
+    D.append(Def('table_rule', [('Init', [Rule(plus(big), 'tok'), Rule(cat(ch('c'), big), 'tok'), Rule(ANY, 'tok')])], tags=['C13', 'C02', 'C11', 'curated', 'table'], nmax=2))
+    D.append(Def('table_ctx', [('Init', [Rule(ch('a'), 'tok', ctx=big), Rule(ch('a'), 'tok'), Rule(ANY, 'tok')])], tags=['C04', 'C13', 'curated', 'table'], nmax=3))
+    D.append(Def('table_ctx2', [('Init', [Rule(plus(ch('x')), 'tok', ctx=cat(big, ch('!'))), Rule(ch('x'), 'tok', ctx=diff(ANY, big)), Rule(ANY, 'tok')])], tags=['C04', 'C13', 'curated', 'table'], nmax=3))
+    D.append(Def('table_ws', [('Init', [Rule(plus(bi('whitespace')), 'skip'), Rule(plus(diff(ANY, bi('whitespace'))), 'tok')])], tags=['C13', 'C02', 'C06', 'curated', 'table'], nmax=2))
     # class algebra through lexers (C11 end to end)
     D.append(Def('diff_chain', [('Init', [
         Rule(diff(diff(cs(('0', '9'), ('a', 'f')), cs(('3', '5'))), cs('a', ('8', 'c'))), 'tok'),
